@@ -369,8 +369,16 @@ Definition dir_register_agent (st : nst) (a addr : Z) : RD :=
 (* Directory.unregister_computation: the directory's own Discovery is called with the default
    publish=True, so "_discovery_orchestrator" sends an un-subscription and an un-publication
    back to "_directory" (self channel) *)
+(* since /repo e9e3188: an un-publication naming an agent that is not the registered host is ignored *)
+Definition stale_unpub (st : nst) (c : Z) (ag : option Z) : bool :=
+  match ag, zlookup c (g_comps (n_dir st)) with
+  | Some g, Some host => negb (host =? g)
+  | _, _ => false
+  end.
+
 Definition dir_unregister_computation (st : nst) (c : Z) (ag : option Z) : RD :=
-  if zmemk c (g_comps (n_dir st)) then
+  if stale_unpub st c ag then (st, [], [], None)
+  else if zmemk c (g_comps (n_dir st)) then
     let g := set_gcomps (n_dir st) (zdel c (g_comps (n_dir st))) in
     let '(d1, o1, e1, x1) := d_unregister_computation (n_disc st) c None true in
     (mkN d1 g, to_self o1 ++ to_all (sm_get c (g_sub_comps g)) (MUnpubComp c ag), e1, x1)
